@@ -11,7 +11,7 @@ Composition of
 
 Theorems
 * `stored_run`: one `interpret` call on the stored chunk of an include-free in-domain statement
-  list gives the evaluator's text, or a rendering error where the evaluator fails;
+  list gives the evaluator's text, or a rendering error of the evaluator's class where it fails;
 * `render_correct_optimized` (the original `vm_refines_spec`, include-free): `Tera.render`
   (evaluator) against `Vm.render` on the stored chunk;
 * `source_to_output_semantics`: source TEXT through `Pipeline.renderSourcesT` (lexer, whitespace
@@ -25,14 +25,14 @@ ends with nesting fuel 1 ends the same way with any (`run_depth_irrel`); `Refine
 `Pipeline.typedCode`; the entry of the VM's table after a one-source `addTemplatesT`.
 
 Outside (named propositions at the end): `include` across the optimiser
-(`render_correct_optimized_includes`), the error CLASS across the optimiser
-(`render_correct_optimized_error_class`: `C09Vm` relates "a rendering error" to "a rendering
-error"), `parents = []` from a source without `extends` (`single_source_no_parents`; a hypothesis
-of `source_to_output_semantics`).  Blocks / inheritance: C04Vm; component calls: C05Vm (the
+(`render_correct_optimized_includes`), `parents = []` from a source without `extends`
+(`single_source_no_parents`; a hypothesis of `source_to_output_semantics`).  The error class across
+the optimiser, first a named gap, is now the theorem `render_correct_optimized_error_class`.  Blocks / inheritance: C04Vm; component calls: C05Vm (the
 evaluator does not model them).
 -/
 import TeraModel.Props.Refine
 import TeraModel.Props.C09Vm
+import TeraModel.Props.C09VmErr
 import TeraModel.Lemmas.RefineOptPipe
 namespace Tera.RefineE2E
 open Tera Tera.Vm Tera.Compiler Tera.Refine
@@ -53,7 +53,8 @@ theorem stored_run (venv : Vm.Env) (eenv : Tera.Env) (hE : EnvRel venv eenv)
         { scope := Scope.root ctx g, out := [], captures := [] } nodes = .error err →
       reportable err = true →
       ∃ N, ∀ steps depth, N ≤ steps →
-        ∃ re, Vm.run ⟨depth + 1, steps⟩ venv vm ch (entryState none ctx g) = .err re) := by
+        ∃ re, errMatch err re = true ∧
+          Vm.run ⟨depth + 1, steps⟩ venv vm ch (entryState none ctx g) = .err re) := by
   obtain ⟨c', code', hopt, hd, rfl⟩ := storeChunk_inv _ _ ch hst
   obtain ⟨tcode, htyped⟩ := typedCode_nodes nodes
   have hemb : embed (nodesCode 0 none nodes) = some tcode := htyped
@@ -71,7 +72,7 @@ theorem stored_run (venv : Vm.Env) (eenv : Tera.Env) (hE : EnvRel venv eenv)
       ⟨ScopeSim.refl _, rfl, rfl⟩ (fun h => by cases h) hcode
   -- the optimiser bridge, for every step fuel
   have hbridge := fun (steps : Nat) =>
-    C09Vm.optimize_preserves_output (Pipeline.decodeInstr (nodesCode 0 none nodes))
+    C09Vm.optimize_preserves_output_errclass (Pipeline.decodeInstr (nodesCode 0 none nodes))
       (Pipeline.decOK_decodeInstr _) (Pipeline.encode (nodesCode 0 none nodes)) c' tcode code'
       vm.template.name (Pipeline.encode_targetsInRange nodes) (Pipeline.pathSpans_encode nodes)
       (Pipeline.otherNoTarget_encode _) (by rw [Pipeline.mapM_encode]; exact htyped) hopt
@@ -111,7 +112,7 @@ theorem stored_run (venv : Vm.Env) (eenv : Tera.Env) (hE : EnvRel venv eenv)
     | outOfFuel => rw [hr'] at hb; exact hb.elim
   · intro err hv hrep
     rw [hv] at hsim
-    obtain ⟨tr, re, hf, _, _, _⟩ := hsim hrep
+    obtain ⟨tr, re, hf, hm, _, _⟩ := hsim hrep
     have hf' := hf.toFails hno
     refine ⟨tr.length, fun steps depth hsteps => ?_⟩
     have herr : Vm.run ⟨1, steps⟩ venv vm ⟨vm.template.name, tcode⟩ (entryState none ctx g) = .err re := by
@@ -122,7 +123,10 @@ theorem stored_run (venv : Vm.Env) (eenv : Tera.Env) (hE : EnvRel venv eenv)
     have hb := hbridge steps (by rw [herr]; intro h; cases h)
     rw [herr] at hb
     cases hr' : Vm.run ⟨1, steps⟩ venv vm ⟨vm.template.name, code'⟩ (entryState none ctx g) with
-    | err e => exact ⟨e, by rw [run_depth_irrel _ _ _ _ _ _ (by rw [hr']; intro h; cases h), hr']⟩
+    | err e =>
+      rw [hr'] at hb
+      exact ⟨e, by rw [C09Vm.errMatch_errClassRel err hb]; exact hm,
+        by rw [run_depth_irrel _ _ _ _ _ _ (by rw [hr']; intro h; cases h), hr']⟩
     | done b => rw [hr'] at hb; exact hb.elim
     | panic s => rw [hr'] at hb; exact hb.elim
     | unmodelled w => rw [hr'] at hb; exact hb.elim
@@ -134,12 +138,11 @@ table holds under `name` a template without parents whose chunk IS what the pipe
 `storeChunk tpl.name (compile body)` = decode (optimize (encode (compile body))) — and the
 evaluator's table holds the body with the same autoescape flag, then what `Tera.render`
 (the evaluator) gives, `Vm.render` gives on the optimised chunk: the same text; and when the
-evaluator fails with a reportable error, a rendering error (not a panic, not `unmodelled`, not out
-of fuel).  Any nesting fuel `≥ 1` (nothing is nested in an include-free template: `run_depth_irrel`),
+evaluator fails with a reportable error, a rendering error of the evaluator's class (`errMatch`;
+not a panic, not `unmodelled`, not out of fuel).  Any nesting fuel `≥ 1` (nothing is nested in an include-free template: `run_depth_irrel`),
 any step fuel `≥ N`.
-The error CLASS is not carried across the optimiser: `C09Vm` relates "a rendering error" to "a
-rendering error" (a fused load names a missing root differently); on the unoptimised chunk the
-class is the evaluator's (`Refine.render_correct_core`). -/
+The error class crosses the optimiser by bC_opt's `C09VmErr` (`errClassRel`: the three
+"undefined" errors are one class, which `errMatch` merges anyway; every other class is kept). -/
 theorem render_correct_optimized (venv : Vm.Env) (eenv : Tera.Env) (hE : EnvRel venv eenv)
     (hB : BuiltinsRel venv eenv) (name : String) (tpl : TemplateInfo) (nodes : List Node)
     (hv : venv.template name = some tpl) (hpar : tpl.parents = [])
@@ -150,7 +153,7 @@ theorem render_correct_optimized (venv : Vm.Env) (eenv : Tera.Env) (hE : EnvRel 
       ∃ N, ∀ steps depth, N ≤ steps → Vm.render ⟨depth + 1, steps⟩ venv name none ctx g = .ok text)
     ∧ (∀ err, Tera.render fuel eenv name ctx g = .error err → reportable err = true →
       ∃ N, ∀ steps depth, N ≤ steps →
-        ∃ re, Vm.render ⟨depth + 1, steps⟩ venv name none ctx g = .err re) := by
+        ∃ re, errMatch err re = true ∧ Vm.render ⟨depth + 1, steps⟩ venv name none ctx g = .err re) := by
   have hS := stored_run venv eenv hE hB { template := tpl, autoescapeOverride := none, depth := 0 } rfl
     nodes hcheck tpl.chunk hst ctx g fuel
   have hae : ({ template := tpl, autoescapeOverride := none, depth := 0 } : VmCtx).autoescape
@@ -196,8 +199,8 @@ theorem render_correct_optimized (venv : Vm.Env) (eenv : Tera.Env) (hE : EnvRel 
       subst herr
       obtain ⟨N, hN⟩ := hS.2 err' hr hrep
       refine ⟨N, fun steps depth hsteps => ?_⟩
-      obtain ⟨re, hrun⟩ := hN steps depth hsteps
-      exact ⟨re, by rw [hrender, hrun]; rfl⟩
+      obtain ⟨re, hm, hrun⟩ := hN steps depth hsteps
+      exact ⟨re, hm, by rw [hrender, hrun]; rfl⟩
 
 /-! ## From source text -/
 
@@ -207,8 +210,8 @@ single source that the front end parses to `t`, whose body passes the domain che
 (`nodesInCore []`: no include, block, component call) and which the registry files without
 parents, rendering it through the pipeline gives the text the evaluator gives on `t.nodes` (with
 the autoescape flag the registry derived); when the evaluator fails with a reportable error the
-pipeline answers a rendering error (never a panic, `unmodelled`, out of fuel, or an add-time
-error).  Any nesting fuel `≥ 1`, any step fuel `≥ N`.  `eenv` is any evaluator environment that agrees
+pipeline answers a rendering error of the same class (never a panic, `unmodelled`, out of fuel, or
+an add-time error).  Any nesting fuel `≥ 1`, any step fuel `≥ N`.  `eenv` is any evaluator environment that agrees
 with the configuration's built-ins (`EnvRel`, `BuiltinsRel`) and holds the parsed body. -/
 theorem source_to_output_semantics (cfg : Pipeline.Config) (name : String) (src : Tera.Bytes)
     (t : Template) (env : Pipeline.Env) (hf : Pipeline.front cfg.delims src = .ok t)
@@ -221,7 +224,7 @@ theorem source_to_output_semantics (cfg : Pipeline.Config) (name : String) (src 
       ∃ N, ∀ steps depth, N ≤ steps →
         Pipeline.renderSourcesT cfg [(name, src)] ⟨depth + 1, steps⟩ name ctx = .ok (.ok text))
     ∧ (∀ err, Tera.render fuel eenv name ctx [] = .error err → reportable err = true →
-      ∃ N, ∀ steps depth, N ≤ steps → ∃ re,
+      ∃ N, ∀ steps depth, N ≤ steps → ∃ re, errMatch err re = true ∧
         Pipeline.renderSourcesT cfg [(name, src)] ⟨depth + 1, steps⟩ name ctx = .ok (.err re)) := by
   obtain ⟨_, hst⟩ := single_template_entry cfg name src t env hf hadd tpl htpl
   have h := render_correct_optimized env eenv hE hB name tpl t.nodes htpl hpar hst he hcheck ctx [] fuel
@@ -234,16 +237,16 @@ theorem source_to_output_semantics (cfg : Pipeline.Config) (name : String) (src 
     exact ⟨N, fun steps depth hs => by rw [hrs, hN steps depth hs]⟩
   · obtain ⟨N, hN⟩ := h.2 err herr hrep
     refine ⟨N, fun steps depth hs => ?_⟩
-    obtain ⟨re, hre⟩ := hN steps depth hs
-    exact ⟨re, by rw [hrs, hre]⟩
+    obtain ⟨re, hm, hre⟩ := hN steps depth hs
+    exact ⟨re, hm, by rw [hrs, hre]⟩
 
 /-! ## What remains outside, as named propositions
 
 * blocks / inheritance (`tpl.parents ≠ []`, `RenderBlock`, `super()`): C04Vm; component calls: C05Vm —
   the evaluator Model/Eval.lean does not model them (`Err.unsupported`), so there is nothing to
   compose here.
-* `include` across the optimiser, the error class across the optimiser, and `parents = []` from
-  the source: the three propositions below. -/
+* `include` across the optimiser and `parents = []` from the source: the two propositions below
+  (the error class across the optimiser is proved: `render_correct_optimized_error_class`). -/
 
 /-- The include lift: `Refine.render_correct_core` covers `include` on UNOPTIMISED chunks (runs
 through `Include` as derivations, `RunI.adequate`); `C09Vm.optimize_preserves_run` covers nested
@@ -267,20 +270,23 @@ def render_correct_optimized_includes : Prop :=
     ∃ N D, ∀ steps depth, N ≤ steps → D ≤ depth →
       Vm.render ⟨depth + 1, steps⟩ venv name none ctx g = .ok text
 
-/-- The error class across the optimiser: `C09Vm.SameOutcome` relates any rendering error to any
-rendering error.  What should hold: the stored chunk fails in the evaluator's class, where the
-fused loads may say `undefinedVariable` for `undefinedField` / `undefinedRender` (all of them
-`Err.undefined` for `errMatch`). -/
-def render_correct_optimized_error_class : Prop :=
-  ∀ (venv : Vm.Env) (eenv : Tera.Env), EnvRel venv eenv → BuiltinsRel venv eenv →
-  ∀ (name : String) (tpl : TemplateInfo) (nodes : List Node),
-    venv.template name = some tpl → tpl.parents = [] →
-    Pipeline.storeChunk tpl.name (nodesCode 0 none nodes) = .ok tpl.chunk →
-    eenv.template name = some ⟨nodes, tpl.autoescape⟩ → nodesInCore [] false nodes = true →
-  ∀ (ctx g : Ctx) (fuel : Nat) (err : Err), Tera.render fuel eenv name ctx g = .error err →
-    reportable err = true →
+/-- The error class across the optimiser (formerly a named gap, now proved through bC_opt's
+`C09VmErr.optimize_preserves_output_errclass` + `errMatch_errClassRel`): the stored chunk fails in
+the evaluator's class, where the fused loads may say `undefinedVariable` for `undefinedField` /
+`undefinedRender` (all of them `Err.undefined` for `errMatch`).  It is the second half of
+`render_correct_optimized`. -/
+theorem render_correct_optimized_error_class (venv : Vm.Env) (eenv : Tera.Env)
+    (hE : EnvRel venv eenv) (hB : BuiltinsRel venv eenv)
+    (name : String) (tpl : TemplateInfo) (nodes : List Node)
+    (hv : venv.template name = some tpl) (hpar : tpl.parents = [])
+    (hst : Pipeline.storeChunk tpl.name (nodesCode 0 none nodes) = .ok tpl.chunk)
+    (he : eenv.template name = some ⟨nodes, tpl.autoescape⟩)
+    (hcheck : nodesInCore [] false nodes = true)
+    (ctx g : Ctx) (fuel : Nat) (err : Err) (herr : Tera.render fuel eenv name ctx g = .error err)
+    (hrep : reportable err = true) :
     ∃ N, ∀ steps depth, N ≤ steps → ∃ re, errMatch err re = true ∧
-      Vm.render ⟨depth + 1, steps⟩ venv name none ctx g = .err re
+      Vm.render ⟨depth + 1, steps⟩ venv name none ctx g = .err re :=
+  (render_correct_optimized venv eenv hE hB name tpl nodes hv hpar hst he hcheck ctx g fuel).2 err herr hrep
 
 /-- A source without `extends` is filed without parents (the registry derivation `find_parents`,
 C04 / C11): in `source_to_output_semantics` this is the hypothesis `tpl.parents = []`. -/
@@ -326,7 +332,7 @@ example : agreeE2E ("{{ [y + 1 for y in xs if y > 1] | length }} {% set t = a.b 
   decide +kernel
 example : agreeE2E ("{% for k, v in m %}{{ k ~ '=' ~ v }}{% if v == 7 %}{% continue %}{% endif %};"
     ++ "{% endfor %}{{ a.b }}{{ m.k }}{{ name }}") srcCtx = true := by decide +kernel
-/-- errors (here the class survives the optimiser: fused `LoadPath` / `WritePath`) -/
+/-- errors: the class survives the optimiser (fused `LoadPath` / `WritePath`) -/
 example : agreeE2E "{{ zz.y }}" srcCtx = true := by decide +kernel
 example : agreeE2E "a{{ a.b.c }}" srcCtx = true := by decide +kernel
 example : agreeE2E "{{ xs | first + 'a' }}" srcCtx = true := by decide +kernel
